@@ -8,7 +8,10 @@ from build import Definition
 from common import finish
 
 LEVEL = "model_checking"
-ASSUME = ["both implementations are stepped through the SAME behaviour of Formak.tla; each is compared with the spec's exact values "
+ASSUME = ["long differential family: seeded random 40-call histories (dyadic inputs, several dt incl. zero and negative) on ONE Python filter object, "
+          "recorded exactly, are replayed into the generated C++ filter; there the Python result is the expectation (no spec oracle; "
+          "well-conditioned steps only, cond(S) <= 1e6)",
+          "both implementations are stepped through the SAME behaviour of Formak.tla; each is compared with the spec's exact values "
           "and the two projected states with each other (1e-9 relative)",
           "Eigen stand-in + g++ 12 for the C++ side; values set and read by field name on both sides"]
 
@@ -37,6 +40,88 @@ def _cmp_traces(tp, tc, steps):
             if py_rej and cpp_unch != 1:
                 out.append((i, "decision", st["key"], "rejected", "accepted"))
     return out
+
+
+def long_history(mods, defj, seed, nsteps):
+    """Python side of the long differential family: a seeded random history of `nsteps` calls with dyadic inputs on ONE filter
+    object; every result is recorded EXACTLY (Fractions of the doubles) and becomes the expectation for the generated C++ filter.
+    The history stops before a step whose innovation covariance is ill conditioned (cond > 1e6), when values leave 1e6, or when
+    the Python filter refuses."""
+    import random
+    from fractions import Fraction
+    import numpy as np
+    ui, python = mods["ui"], mods["python"]
+    d = Definition(defj)
+    impl, model, symtab = pyrep.build_py(d, ui, python, True, True, "random:long:%s" % seed)
+    rnd = random.Random(seed)
+
+    def dy(lo, hi):
+        return rnd.randint(lo * 8, hi * 8) / 8.0
+
+    def R(v):
+        f = Fraction(float(v))
+        return [f.numerator, f.denominator]
+
+    def vec(obj):
+        return {str(s_): R(obj.data[i, 0]) for i, s_ in enumerate(obj._arglist)}
+
+    def mat(obj):
+        ns = [str(s_) for s_ in obj._arglist]
+        return {r: {c: R(obj.data[i, j]) for j, c in enumerate(ns)} for i, r in enumerate(ns)}
+    n = len(d.state)
+    A = np.array([[dy(-1, 1) for _ in range(n)] for _ in range(n)])
+    P0 = A @ A.T + np.eye(n) * dy(1, 3)
+    state = impl.State(**{s_: dy(-2, 2) for s_ in d.state})
+    cov = impl.Covariance.from_data(P0)
+    steps = [{"act": "SetEstimate", "x": vec(state), "P": mat(cov)}]
+    keys = sorted(d.sensors)
+    for _ in range(nsteps):
+        try:
+            if keys and rnd.random() < 0.45:
+                key = rnd.choice(keys)
+                sm = impl.sensor_models[key]
+                pred = sm.model(state)
+                z = {str(r): float(pred.data[i, 0]) + dy(-2, 2) * (4.0 if rnd.random() < 0.15 else 0.25) for i, r in enumerate(sm.readings)}
+                H = impl.sensor_jacobian(key, state)
+                S = H @ cov.data @ H.T + impl.sensor_noises[key].data
+                if not np.all(np.isfinite(S)) or np.linalg.cond(S) > 1e6:
+                    break
+                rd = impl.make_reading(key, **z)
+                nxt = impl.sensor_model(state, cov, sensor_key=key, sensor_reading=rd)
+                rejected = nxt.state is state
+                steps.append({"act": "Update", "key": key, "z": {r: R(v) for r, v in z.items()}, "outcome": "rejected" if rejected else "accepted",
+                              "x": vec(nxt.state), "P": mat(nxt.covariance),
+                              "innov": {str(r): R(impl.innovations[key][i, 0]) for i, r in enumerate(sm.readings)}, "S": {}})
+            else:
+                dt = rnd.choice([0.125, 0.25, 0.5, 0.0625, -0.125, 0.0])
+                u = {c: dy(-2, 2) for c in d.control}
+                nxt = impl.process_model(dt, state, cov, impl.Control(**u))
+                steps.append({"act": "Predict", "dt": R(dt), "u": {c: R(v) for c, v in u.items()}, "x": vec(nxt.state), "P": mat(nxt.covariance)})
+            state, cov = nxt.state, nxt.covariance
+            if not (np.all(np.isfinite(state.data)) and np.all(np.isfinite(cov.data))) or np.max(np.abs(state.data)) > 1e6 or np.max(np.abs(cov.data)) > 1e6:
+                steps.pop()
+                break
+        except (AssertionError, ZeroDivisionError, FloatingPointError, np.linalg.LinAlgError):
+            break
+    for st in steps:
+        st.pop("S", None)
+    return {"def": defj, "steps": steps}
+
+
+def _long_differential(ctx, scns):
+    import workers
+    picks = [s for s in scns if Definition(s["def"]).sensors][: (6 if ctx.quick else 120)]
+    res = workers.run_tasks([("props.c07", "long_history", (s["def"], ctx.seed * 1000 + i, 40), 300) for i, s in enumerate(picks)], procs=ctx.cores)
+    longs = []
+    for s, (status, out) in zip(picks, res):
+        if status == "ok" and len(out["steps"]) >= 5:
+            out["_id"] = s.get("_id", "") + "-long"
+            longs.append(out)
+    rc = cppcheck.replay_cpp(ctx, longs, cse_settings=(True,), kind="ekf", presentation="random")
+    c = cppcheck.record(ctx, rc, key_prefix="long-differential:cpp-vs-python:")
+    c["long_histories"] = len(longs)
+    c["long_history_steps"] = sum(len(x["steps"]) for x in longs)
+    return c
 
 
 def run(ctx):
@@ -76,6 +161,7 @@ def run(ctx):
             i, what, name, a, b = diffs[0]
             ctx.violation("py-vs-cpp:" + what, "cse=%s step=%d %s[%s]: python=%r c++=%r" % (cse, i, what, name, a, b),
                           {"scenario": {k: v for k, v in s.items() if not k.startswith("_")}, "cse": cse, "diffs": diffs[:10]})
+    longdiff = _long_differential(ctx, scns)
     defs = {}
     acts = {}
     for s in scns:
@@ -92,7 +178,7 @@ def run(ctx):
            "differential_comparisons": ndiff, "actions_replayed": acts,
            "rule": "behaviour = definition + SetEstimate / Predict / Update (accepted and rejected) / evaluation steps; replayed into the Python "
                    "EKF and the generated C++ EKF with CSE off and on; non-trivial = shared sub-term or >= 2 symbols",
-           "tlc_runs": stats["tlc_runs"], "python": c_py, "cpp": c_cpp}
+           "tlc_runs": stats["tlc_runs"], "python": c_py, "cpp": c_cpp, "long_differential": longdiff}
     return finish(ctx, LEVEL, cov, ASSUME)
 
 
